@@ -27,10 +27,18 @@ def _residual_ob(ctx, rule, c, R, ref, where, detail):
     if R.bad:
         why, node = R.bad[0]
         ctx.violated(rule, c + "[bins independent]", why.why, f"{SYS}:{getattr(node, 'lineno', 0)}"); return None
+    if is_opaque(R.result) and getattr(R.result, "why", "") == "always raises":
+        # the instance is an admissible call (q one-dimensional inputs and an output of one length, fs > 0): raising on every path is a failure
+        ctx.violated(rule, c, "the function raises for this admissible call on every path (q equally long one-dimensional records)", where); return None
     if is_opaque(R.result) or not isinstance(R.result, tuple) or len(R.result) != 2:
         ctx.ob(rule, c, VIOLATED if isinstance(R.result, Mismatch) else UNKNOWN, f"return value not recognised: {R.result!r}"[:300], where); return None
     if not R.sqrt_args:
-        ctx.unknown(rule, c, f"no square root of a recognised residual is returned: {R.result[1]!r}"[:300], where); return None
+        mm = next((v for v in R.result if isinstance(v, Mismatch)), None)
+        plain = all(isinstance(l, X) for _, l in pv_leaves(R.result[1]))
+        if mm is not None: ctx.violated(rule, c, f"the computation fails on every input: {mm.why}"[:400], where)
+        elif plain: ctx.violated(rule, c, f"the returned amplitude {R.result[1]!r} is not the square root of a residual spectrum (no root is taken)"[:400], where)
+        else: ctx.unknown(rule, c, f"no square root of a recognised residual is returned: {R.result[1]!r}"[:400], where)
+        return None
     arg = R.sqrt_args[-1]
     asd = R.result[1]
     worst = None
